@@ -73,6 +73,11 @@ type Params struct {
 	ValSeed int64  // seed of the validator / committee / next-consensus identity (PoW routers: of the header content)
 	NVals   int    // number of validators
 	Salt    int64  // seed of every other header field (roots, time, vanity, ...)
+	// Minimal asks for a degenerate-but-well-formed document: every field the light client does not
+	// need is left zero / empty (tendermint family: only chain id, height and the next-validators
+	// commitment, so the header hash is nil; Ethereum family: zero hashes, zero difficulty / time /
+	// gas, zero vanity and seal bytes). Routers whose builder has no such variant ignore it.
+	Minimal bool
 }
 
 type Router struct {
@@ -129,6 +134,20 @@ func gethHeader(p Params, salt *rand.Rand, extra []byte) *etypes.Header {
 	salt.Read(h.Coinbase[:])
 	salt.Read(h.Nonce[:])
 	salt.Read(h.Bloom[:16])
+	if p.Minimal {
+		x := append([]byte{}, extra...)
+		if len(x) >= 32+65 { // keep the validator bytes, zero vanity and seal
+			for i := 0; i < 32; i++ {
+				x[i] = 0
+			}
+			for i := len(x) - 65; i < len(x); i++ {
+				x[i] = 0
+			}
+		} else {
+			x = nil
+		}
+		return &etypes.Header{Difficulty: big.NewInt(0), Number: new(big.Int).SetUint64(p.Height), Extra: x}
+	}
 	return h
 }
 
@@ -138,7 +157,7 @@ func polyEthHeader(p Params, salt *rand.Rand, extra []byte) eth.Header {
 	h := eth.Header{ParentHash: g.ParentHash, UncleHash: g.UncleHash, Coinbase: g.Coinbase, Root: g.Root, TxHash: g.TxHash,
 		ReceiptHash: g.ReceiptHash, Bloom: g.Bloom, Difficulty: g.Difficulty, Number: g.Number, GasLimit: g.GasLimit,
 		GasUsed: g.GasUsed, Time: g.Time, Extra: g.Extra, MixDigest: g.MixDigest, Nonce: g.Nonce}
-	if salt.Intn(2) == 0 {
+	if salt.Intn(2) == 0 && !p.Minimal {
 		h.BaseFee = big.NewInt(1 + salt.Int63n(1<<34))
 	}
 	return h
@@ -252,10 +271,16 @@ func buildHeimdall(p Params) ([]byte, error) {
 		LastCommitHash: rb(s, 32), DataHash: rb(s, 32), ValidatorsHash: rb(s, 32), NextValidatorsHash: nextHash, ConsensusHash: rb(s, 32),
 		AppHash: rb(s, 32), LastResultsHash: rb(s, 32), EvidenceHash: rb(s, 32), ProposerAddress: vals[0].Address}
 	h.Version.Block = 10
+	if p.Minimal {
+		h = ptypes.Header{ChainID: "heimdall-137", Height: int64(p.Height), NextValidatorsHash: nextHash}
+	}
 	return ptypes.NewCDC().MarshalBinaryBare(polygon.CosmosHeader{Header: h, Valsets: vals})
 }
 
 func tmHeader(p Params, s *rand.Rand, valsHash, proposer []byte) tmtypes.Header {
+	if p.Minimal {
+		return tmtypes.Header{ChainID: "c19-chain", Height: int64(p.Height), NextValidatorsHash: valsHash}
+	}
 	return tmtypes.Header{Version: tmversion.Consensus{Block: 10, App: tmversion.Protocol(s.Intn(3))}, ChainID: "c19-chain", Height: int64(p.Height), Time: tmTime(s),
 		LastBlockID:    tmtypes.BlockID{Hash: rb(s, 32), PartsHeader: tmtypes.PartSetHeader{Total: 1, Hash: rb(s, 32)}},
 		LastCommitHash: rb(s, 32), DataHash: rb(s, 32), ValidatorsHash: rb(s, 32), NextValidatorsHash: valsHash, ConsensusHash: rb(s, 32),
